@@ -88,8 +88,7 @@ def confirm(src, sid, skip_suite=False):
     return res
 
 
-def recheck(ids):
-    ids = ids or sorted(os.listdir(f"{VERIF}/seeded"))
+def _recheck_chunk(ids):
     tree = make_tree()
     rows = []
     try:
@@ -111,6 +110,19 @@ def recheck(ids):
             rows.append((sid, meta.get("property"), caught, errors, rules))
     finally:
         drop_tree(tree)
+    return rows
+
+
+def recheck(ids, jobs=8):
+    from concurrent.futures import ProcessPoolExecutor
+    ids = ids or sorted(os.listdir(f"{VERIF}/seeded"))
+    ids = [i for i in ids if os.path.exists(f"{VERIF}/seeded/{i}/patch.diff")]
+    chunks = [ids[k::jobs] for k in range(jobs) if ids[k::jobs]]
+    rows = []
+    with ProcessPoolExecutor(len(chunks) or 1) as ex:
+        for r in ex.map(_recheck_chunk, chunks):
+            rows.extend(r)
+    rows.sort()
     for r in rows:
         print(*r)
     n = sum(1 for r in rows if r[2])
@@ -150,11 +162,11 @@ def benign(src, sid, skip_suite=False):
     return res
 
 
-def recheck_benign(ids):
+def _benign_chunk(ids):
     base = f"{VERIF}/seeded/benign"
-    ids = ids or sorted(os.listdir(base))
     tree = make_tree()
     noisy = 0
+    lines = []
     try:
         for sid in ids:
             d = f"{base}/{sid}"
@@ -162,16 +174,32 @@ def recheck_benign(ids):
             sh("git clean -fdq tempest", cwd=tree)
             rc, out = sh(f"git apply {d}/patch.diff", cwd=tree)
             if rc:
-                print(sid, "PATCH-FAILS")
+                lines.append(f"{sid} PATCH-FAILS")
                 continue
             caught, errors, rules, out = run_checks(tree)
             meta = json.load(open(f"{d}/meta.json"))
             meta.setdefault("verification", {}).update({"violations_reported": caught, "analysis_errors": errors, "rules_fired": rules})
             json.dump(meta, open(f"{d}/meta.json", "w"), indent=1)
-            print(sid, "violations:", caught, "errors:", errors, rules)
+            lines.append(f"{sid} violations: {caught} errors: {errors} {rules}")
             noisy += bool(caught or errors)
     finally:
         drop_tree(tree)
+    return noisy, lines
+
+
+def recheck_benign(ids, jobs=8):
+    from concurrent.futures import ProcessPoolExecutor
+    base = f"{VERIF}/seeded/benign"
+    ids = ids or sorted(os.listdir(base))
+    chunks = [ids[k::jobs] for k in range(jobs) if ids[k::jobs]]
+    noisy = 0
+    lines = []
+    with ProcessPoolExecutor(len(chunks) or 1) as ex:
+        for n, ls in ex.map(_benign_chunk, chunks):
+            noisy += n
+            lines.extend(ls)
+    for l in sorted(lines):
+        print(l)
     print(f"noisy {noisy}/{len(ids)}")
 
 
